@@ -947,3 +947,51 @@ def atomicity(c, pid, what):
         raise vf.ToolError("atomicity_stress wrote nothing")
     c.cov["parts"]["atomicity-" + what] = {"rounds": rounds, "threads": 4}
     c.cov["evaluations"] += rounds
+
+
+def admission_window(c):
+    """C16: a connection that accept_connection has just admitted, whose session task has not taken its first step yet, is
+    already the neighbour's connection: if the neighbour is disabled or deleted in that window the connection must end
+    without ever sending an OPEN (no session for a neighbour that is admin-down or no longer configured).  Scripted histories
+    on the real accept_connection / API handlers / PeerSession::run (the walk replay lets every accepted connection start
+    before the next operation); a control history shows that the probe sees the OPEN of an undisturbed connection."""
+    inp = os.path.join(vf.WORK, "C16w.adm.in")
+    outp = os.path.join(vf.WORK, "C16w.adm.out")
+    hists = []
+    for addr in ("s", "d"):
+        for direction in ("P", "A"):
+            hists.append((f"control {addr} {direction}", [f"connect {addr} {direction} 0", "probe 1 - 0"], "open"))
+            for op in ("disable", "delete"):
+                if addr == "d" and op == "disable":
+                    continue
+                hists.append((f"{op} {addr} {direction}", [f"connect {addr} {direction} 1", f"{op} {addr} - 0", "probe 1 - 0"], "noopen"))
+    with open(inp, "w") as f:
+        for _, ops, _ in hists:
+            f.write("walk\nadd s - 0\n")
+            for o in ops:
+                f.write(o + "\n")
+    if os.path.exists(outp):
+        os.remove(outp)
+    vf.daemon_test("admission_replay", {"VERIF_IN": inp, "VERIF_OUT": outp}, timeout=600)
+    got = vf.read_jsonl(outp)
+    i = 0
+    n = 0
+    for name, ops, want in hists:
+        assert got[i].get("walk"), got[i]
+        res = [g["res"] for g in got[i + 1:i + 2 + len(ops)]]
+        i += 2 + len(ops)
+        if res[1] != "accepted":
+            if name.startswith("control"):
+                raise vf.ToolError(f"admission_window: control history {name}: connection not accepted ({res})")
+            continue
+        n += 1
+        last = res[-1]
+        if want == "open" and last != "open":
+            raise vf.ToolError(f"admission_window: control history {name}: the probe saw {last}, not the OPEN")
+        if want == "noopen" and last == "open":
+            c.violation("admission.window", {"history": ops, "results": res,
+                                              "why": "the neighbour was disabled / deleted after the connection was admitted and before "
+                                                     "its session task started; the connection sent an OPEN all the same"},
+                        {"harness": "admission_replay", "ops": ["add s - 0"] + ops})
+    c.cov["parts"]["admission-window"] = {"histories": n}
+    c.cov["evaluations"] += n
